@@ -213,7 +213,45 @@ fn gen_two_tokens(rng: &mut Rng) -> J {
            "utxos": utxos, "outs": [{"c": 1 + rng.below(3), "assets": want}], "pre": if rng.chance(1, 3) { vec![json!(2)] } else { vec![] }, "distinct_addrs": false, "max_leaves": 1500})
 }
 
+/// several requested outputs ask for the SAME token; what the builder already holds (an input added before, carrying the token) covers
+/// the largest request but not all of them together; the rest sits in offered UTxOs
+fn gen_shared_token(rng: &mut Rng) -> J {
+    let strat = *rng.pick(&["LargestFirstMultiAsset", "RandomImproveMultiAsset", "RandomImproveMultiAsset"]);
+    let tok = |q: u64| json!([{"p": [1], "n": [7], "q": q}]);
+    let no = 2 + rng.below(2);
+    let reqs: Vec<u64> = (0..no).map(|_| 2 + rng.below(8)).collect();
+    let largest = *reqs.iter().max().unwrap();
+    let total: u64 = reqs.iter().sum();
+    let held = largest + rng.below(total - largest);
+    let mut utxos: Vec<J> = vec![];
+    let mut left = total - held + rng.below(3);
+    while left > 0 { let q = 1 + rng.below(left.min(5)); utxos.push(json!({"c": 2, "assets": tok(q)})); left -= q; }
+    for _ in 0..rng.below(3) { utxos.push(json!(1 + rng.below(4))); }
+    for i in (1..utxos.len()).rev() { let j = rng.below(i as u64 + 1) as usize; utxos.swap(i, j); }
+    let outs: Vec<J> = reqs.iter().map(|q| json!({"c": 1 + rng.below(2), "assets": tok(*q)})).collect();
+    json!({"strat": strat, "mode": "explore", "unit": 1_000_000, "a": 44, "b": 155381, "cpb": 0, "wd": if rng.chance(1, 3) { 10 } else { 0 },
+           "utxos": utxos, "outs": outs, "pre": [{"c": 2 + rng.below(8), "assets": tok(held)}], "distinct_addrs": rng.chance(1, 2), "max_leaves": 1500})
+}
+
+/// quantities at the top of the 64-bit range (token amounts are unsigned 64-bit numbers): orderings and sums computed in a signed or
+/// narrower type go wrong here
+fn gen_huge_quantities(rng: &mut Rng) -> J {
+    let strat = *rng.pick(&["LargestFirstMultiAsset", "RandomImproveMultiAsset", "LargestFirstMultiAsset"]);
+    let tok = |q: u64| json!([{"p": [1], "n": [7], "q": q}]);
+    let big = *rng.pick(&[(1u64 << 63) + 100, 1u64 << 63, u64::MAX - 7, (1u64 << 63) - 1, 1u64 << 62]);
+    let mut utxos: Vec<J> = vec![json!({"c": 2, "assets": tok(big)})];
+    // (all offered quantities of a token together fit 64 bits: anything else is not a ledger state)
+    let room = (u64::MAX - big) / 4;
+    for _ in 0..1 + rng.below(3) { let q = (*rng.pick(&[5u64, 1 << 32, 1 << 62, (1 << 61) + 3])).min(room.max(1)); utxos.push(json!({"c": 2, "assets": tok(q)})); }
+    for i in (1..utxos.len()).rev() { let j = rng.below(i as u64 + 1) as usize; utxos.swap(i, j); }
+    let want = *rng.pick(&[3u64, 1 << 33, 1 << 62, big - 1, big]);
+    json!({"strat": strat, "mode": "explore", "unit": 1_000_000, "a": 44, "b": 155381, "cpb": 0, "wd": if rng.chance(1, 2) { 10 } else { 0 },
+           "utxos": utxos, "outs": [{"c": 1, "assets": tok(want)}], "pre": [], "distinct_addrs": false, "max_leaves": 800})
+}
+
 fn gen(rng: &mut Rng) -> J {
+    if rng.chance(1, 8) { return gen_shared_token(rng); }
+    if rng.chance(1, 12) { return gen_huge_quantities(rng); }
     if rng.chance(1, 6) { return gen_token_split(rng); }
     if rng.chance(1, 6) { return gen_two_tokens(rng); }
     let strat = *rng.pick(&["LargestFirst", "RandomImprove", "LargestFirstMultiAsset", "RandomImproveMultiAsset"]);
